@@ -25,6 +25,10 @@ enum Code
   O_RESET_PTR,
   O_RESET_NULL,
   O_RESIZE,
+  O_RESIZE_ALIAS,    // resize(size+a, (*O)[b ? size-1 : 0]): the fill value lives inside the array
+  O_RESET_OWN,       // O->reset(O->data()+a, size-a): the source range lives inside the array
+  O_RESET_FROM_OTHER,  // O->reset(other->data()+1, othersize-1)
+  O_PTR_FROM_OTHER,    // O = new OwnedArray(other->data()+1, othersize-1)
   O_COPY_CTOR,
   O_COPY_ASSIGN,
   O_SELF_ASSIGN,
@@ -64,14 +68,20 @@ static std::vector<Op> make_ops()
   add(O_ASSIGN_VEC, 0, 1, 0, "*O0 = S1", "operator=(vector&)");
   add(O_ASSIGN_ARR, 0, 0, 0, "*O0 = arr", "operator=(array&)");
   add(O_RESET, 0, 0, 0, "O0->reset()", "reset()");
-  add(O_RESET_PTR, 0, 1, 0, std::string("O0->reset S1") + var[0], "reset(T*,size_t)");
   add(O_RESET_PTR, 0, 1, 1, std::string("O0->reset S1") + var[1], "reset(T*,size_t)");
-  add(O_RESET_PTR, 0, 0, 2, std::string("O0->reset S0") + var[2], "reset(T*,size_t)");
   add(O_RESET_NULL, 0, 0, 0, "O0->reset(nullptr,0)", "reset(T*,size_t)");
   add(O_RESIZE, 0, 0, 0, "O0->resize(0,fresh)", "resize");
   add(O_RESIZE, 0, 1, 0, "O0->resize(1,fresh)", "resize");
   add(O_RESIZE, 0, 3, 0, "O0->resize(3,fresh)", "resize");
   add(O_RESIZE, 0, 9, 0, "O0->resize(9,fresh)", "resize");
+  // arguments that live inside the array itself / inside the other array
+  add(O_RESIZE_ALIAS, 0, 1, 0, "O0->resize(size+1, (*O0)[0])", "resize with a fill value inside the array");
+  add(O_RESIZE_ALIAS, 0, 1, 1, "O0->resize(size+1, (*O0)[size-1])", "resize with a fill value inside the array");
+  add(O_RESIZE_ALIAS, 0, 8, 1, "O0->resize(size+8, (*O0)[size-1])", "resize with a fill value inside the array");
+  add(O_RESET_OWN, 0, 1, 0, "O0->reset(O0->data()+1, size-1)", "reset(T*,size_t) with a range inside the array");
+  add(O_RESET_OWN, 0, 0, 0, "O0->reset(O0->data(), size)", "reset(T*,size_t) with a range inside the array");
+  add(O_RESET_FROM_OTHER, 0, 1, 0, "O0->reset(O1->data()+1, O1 size-1)", "reset(T*,size_t) with a range inside another OwnedArray");
+  add(O_PTR_FROM_OTHER, 1, 0, 0, "O1 = new OwnedArray(O0->data()+1, O0 size-1)", "OwnedArray(T*,size_t) with a range inside another OwnedArray");
   add(O_COPY_CTOR, 0, 1, 0, "O0 = new OwnedArray(*O1)", "copy constructor");
   add(O_COPY_ASSIGN, 0, 1, 0, "*O0 = *O1", "copy assignment");
   add(O_SELF_ASSIGN, 0, 0, 0, "*O0 = *O0", "copy assignment");
@@ -190,6 +200,8 @@ struct World
       touched[s] = true;
       if (op.code == O_COPY_CTOR || op.code == O_COPY_ASSIGN)
         touched[op.a] = true;
+      if (op.code == O_RESET_FROM_OTHER || op.code == O_PTR_FROM_OTHER)
+        touched[1 - s] = true;
     }
     T *p = nullptr;
     size_t off = 0, n = 0;
@@ -278,6 +290,53 @@ struct World
       O[s]->resize((size_t)op.a, (T)x);
       M[s].c.resize((size_t)op.a, x);
       M[s].reset_like = false;
+      return true;
+    }
+    case O_RESIZE_ALIAS: {
+      // statement: size()/contents consistent with the last operation = the old elements followed by
+      // copies of the value `val` had when resize was called; `val` is a const T& and nothing forbids
+      // it to designate an element of the array (std::vector::resize supports exactly that)
+      if (!M[s].live || M[s].c.empty())
+        return false;
+      const size_t n = M[s].c.size();
+      const size_t idx = op.b ? n - 1 : 0;
+      const LL x = M[s].c[idx];
+      O[s]->resize(n + (size_t)op.a, (*O[s])[idx]);
+      M[s].c.resize(n + (size_t)op.a, x);
+      M[s].reset_like = false;
+      return true;
+    }
+    case O_RESET_OWN: {
+      // the array is rebuilt from a range of its own (valid, live) elements: it must end up holding a
+      // copy of that range ("independent of the buffer it was built from" - here its own old buffer)
+      if (!M[s].live || M[s].c.size() < (size_t)op.a + 1)
+        return false;
+      const size_t n = M[s].c.size() - (size_t)op.a;
+      std::vector<LL> c(M[s].c.begin() + op.a, M[s].c.end());
+      O[s]->reset(O[s]->data() + op.a, n);
+      const char *role = M[s].role;
+      set_contents(s, c);
+      M[s].role = role;
+      return true;
+    }
+    case O_RESET_FROM_OTHER: {
+      const int o = 1 - s;
+      if (!M[s].live || !M[o].live || M[o].c.empty())
+        return false;
+      std::vector<LL> c(M[o].c.begin() + 1, M[o].c.end());
+      O[s]->reset(O[o]->data() + 1, c.size());
+      set_contents(s, c);
+      return true;
+    }
+    case O_PTR_FROM_OTHER: {
+      const int o = 1 - s;
+      if (!M[o].live || M[o].c.empty())
+        return false;
+      std::vector<LL> c(M[o].c.begin() + 1, M[o].c.end());
+      OwnedArray<T> *nv = new OwnedArray<T>(O[o]->data() + 1, c.size());
+      delete O[s];
+      O[s] = nv;
+      set_contents(s, c);
       return true;
     }
     case O_COPY_CTOR: {
